@@ -78,7 +78,8 @@ class BloscCompressor(Compressor):
             this_typesize = typesize
         # assert this_typesize != 1
 
-        nelem = compression_block_size // data.itemsize
+        # a frame holds at least one item, also when the block size is below the item size
+        nelem = max(1, compression_block_size // data.itemsize)
         for i in range(0, len(data), nelem):
             compressed = blosc.compress(
                 data[i : i + nelem],
